@@ -245,9 +245,9 @@ fn inject_docs(rng: &mut Rng, a: &mut ast::Schema) {
 }
 
 /// transcription of BrokenDocLink::linecol_to_index (mirrors coq/Schema/Span.v); Err = arithmetic underflow
-fn linecol(docs: &[(usize, String)], line: usize, col: usize, end: bool) -> Result<Option<usize>, ()> {
+fn linecol(docs: &[(usize, usize, String)], line: usize, col: usize, end: bool) -> Result<Option<usize>, ()> {
     let mut ln = 0usize;
-    for (start, value) in docs {
+    for (start, _, value) in docs {
         let mut offset = 0usize;
         for part in value.split('\r') {
             ln += 1;
@@ -265,7 +265,7 @@ fn linecol(docs: &[(usize, String)], line: usize, col: usize, end: bool) -> Resu
 }
 
 struct SpanCase {
-    docs: Vec<(usize, String)>,
+    docs: Vec<(usize, usize, String)>,
     pos: (usize, usize, usize, usize),
     error: String,
 }
@@ -306,7 +306,7 @@ fn expected_broken_links(p: &aldrin_parser::Parser) -> Vec<SpanCase> {
             if let Err(e) = lr.resolve(&link.url) {
                 let sp = data.sourcepos;
                 out.push(SpanCase {
-                    docs: docs.iter().map(|d| (d.span_inner().start, d.value_inner().to_owned())).collect(),
+                    docs: docs.iter().map(|d| (d.span_inner().start, d.span_inner().end, d.value_inner().to_owned())).collect(),
                     pos: (sp.start.line, sp.start.column, sp.end.line, sp.end.column),
                     error: e.to_string(),
                 });
@@ -325,9 +325,9 @@ fn span_of(c: &SpanCase) -> Result<(usize, usize), ()> {
     Ok(match (s, e) {
         (Some(s), Some(e)) => (s, e),
         _ => {
-            let (fs, _) = &c.docs[0];
-            let (ls, lv) = c.docs.last().unwrap();
-            (*fs, ls + lv.len())
+            let (fs, _, _) = &c.docs[0];
+            let (_, le, _) = c.docs.last().unwrap();
+            (*fs, *le)
         }
     })
 }
@@ -424,8 +424,8 @@ fn c17_one(src: &Option<String>, imports: &Imports, variant: u64, stream: &str, 
                             o.count("note:comrak_column_zero");
                         }
                         let mut case = format!("span {}", c.docs.len());
-                        for (st, v) in &c.docs {
-                            write!(case, " {} s{}", st, hex(v.as_bytes())).unwrap();
+                        for (st, en, v) in &c.docs {
+                            write!(case, " {} {} s{}", st, en, hex(v.as_bytes())).unwrap();
                         }
                         write!(case, " {} {} {} {}", c.pos.0, c.pos.1, c.pos.2, c.pos.3).unwrap();
                         match span_of(c) {
